@@ -44,7 +44,7 @@ def main():
         })
     man = {
         "version": 1,
-        "setup_cmd": "make -j16 FLAVOR=plain && make -j16 FLAVOR=san && build/plain/vsim selftest oracles && build/plain/vsim selftest known",
+        "setup_cmd": "make -j16 FLAVOR=plain && make -j16 FLAVOR=san && make -j16 FLAVOR=dbg && build/plain/vsim selftest oracles && build/plain/vsim selftest known",
         "hooks": {
             "guard": "LIBVATA_VERIF",
             "enable": "/verif/Makefile passes -DLIBVATA_VERIF to every translation unit; no hook exists in /repo (all seams are link-time `operator new`, an existing friend declaration of OndriksMTBDD, or the public API), so the define currently guards nothing",
